@@ -79,7 +79,16 @@ def units_bad(esc: str, multiline: bool) -> str | None:
 
 
 def oracle(s: str, multiline: bool, pre: str = '', post: str = '', cut: int | None = None, bits: int = BITS_ESC) -> str | None:
-    """The property on the real code. Returns None if it holds, else a short description."""
+    """The property on the real code. Returns None if it holds, else a short description.  Every call is bounded in time: a fault
+    that makes escape_text or the tokenizer loop is a failing input ('no result within ... s'), not a hung check."""
+    try:
+        with U.time_limit():
+            return _oracle(s, multiline, pre, post, cut, bits)
+    except U.ImplTimeout:
+        return f'hang: no result within {U.IMPL_LIMIT_S:.0f} s'
+
+
+def _oracle(s: str, multiline: bool, pre: str, post: str, cut: int | None, bits: int) -> str | None:
     from srctools.tokenizer import Token, Tokenizer, TokenSyntaxError, escape_text
     try:
         esc = escape_text(s, multiline)
@@ -121,6 +130,14 @@ def oracle(s: str, multiline: bool, pre: str = '', post: str = '', cut: int | No
 
 def kv_oracle(s: str, multiline: bool) -> str | None:
     """The escaped string as key and as value (plain and flagged line) of a KeyValues block, through Keyvalues.parse."""
+    try:
+        with U.time_limit():
+            return _kv_oracle(s, multiline)
+    except U.ImplTimeout:
+        return f'hang: no result within {U.IMPL_LIMIT_S:.0f} s'
+
+
+def _kv_oracle(s: str, multiline: bool) -> str | None:
     from srctools.keyvalues import Keyvalues
     from srctools.tokenizer import escape_text
     esc = escape_text(s, multiline)
@@ -156,6 +173,87 @@ def shrink(s: str, pred) -> str:
             if pred(cand):
                 cur = cand
     return cur
+
+
+# ------------------------------------------------------------------------------------------------ histories: state carried between tokenizers
+POISONS = [
+    ('unterminated-string', '"value that is never closed\n'),
+    ('unterminated-string-after-CR', '"ab\r'),
+    ('dangling-escape', '"ab\\'),
+    ('unterminated-bracket', '[abc'),
+    ('unterminated-paren', '(abc\n'),
+    ('unclosed-star-comment', '/* abc\n'),
+    ('nested-paren', '(a(b'),
+    ('complete-parse', '"a" "b\\n"\r\n// c\n{ }'),
+    ('iterator-raises-inside-a-string', None),
+    ('tokenizer-abandoned-inside-a-string', None),
+    ('keyvalues-parse-fails', '"a" { "b" "c'),
+]
+
+
+def run_poison(kind: str) -> None:
+    """Something that happens BEFORE the string is tokenized, in the same process: a parse that fails inside a quoted string / a
+    bracket / a comment, a complete parse, a chunk iterator that raises in the middle of a string, a tokenizer that is simply
+    dropped in the middle of a string, a failing Keyvalues.parse.  None of it may influence a later, unrelated tokenizer."""
+    from srctools.tokenizer import Tokenizer, TokenSyntaxError
+    text = dict(POISONS)[kind]
+    try:
+        if kind == 'iterator-raises-inside-a-string':
+            def chunks():
+                yield '"abc'
+                yield 'def\r'
+                raise RuntimeError('iterator failed')
+            list(Tokenizer(chunks(), None, allow_star_comments=True, string_bracket=True))
+        elif kind == 'tokenizer-abandoned-inside-a-string':
+            class Stop(Exception):
+                pass
+
+            def chunks2():
+                yield '"abc'
+                raise Stop
+            try:
+                Tokenizer(chunks2(), None)()
+            except Stop:
+                pass
+        elif kind == 'keyvalues-parse-fails':
+            from srctools.keyvalues import Keyvalues
+            Keyvalues.parse(text)
+        else:
+            list(Tokenizer(text, None, allow_star_comments=True, string_bracket=True))
+    except (TokenSyntaxError, RuntimeError):
+        pass
+
+
+def history_search(ck: Ck) -> None:
+    """After each kind of earlier event, every string over the escape alphabet up to length 2 (both modes) must still round-trip
+    through a NEW tokenizer; also through Keyvalues.parse for length <= 1."""
+    reported: set[str] = set()
+    for kind, _ in POISONS:
+        for ml in (False, True):
+            for s in U.strings_upto(ESC_ALPHA, 2):
+                run_poison(kind)
+                ck.count('search_history')
+                r = oracle(s, ml)
+                if r is None and len(s) <= 1:
+                    run_poison(kind)
+                    r = kv_oracle(s, ml)
+                    kv = r is not None
+                else:
+                    kv = False
+                if len(s) == 2 and s[0] != s[1]:
+                    ck.seen(('h', kind, ml, s))
+                if r is None:
+                    continue
+                mode = 'multi' if ml else 'single'
+                key = f'roundtrip-after-{kind}-{mode}' + ('-kvparse' if kv else '')
+                if key in reported:
+                    ck.count('search_failures_beyond_cap')
+                    continue
+                reported.add(key)
+                ck.violation(key, f'after {kind}: escape_text({s!r}, multiline={ml}) no longer tokenizes back: {r}',
+                             {'s': [ord(c) for c in s], 'multiline': ml, 'context': {'kv': True} if kv else {}, 'history': kind, 'why': r,
+                              'how': 'checks.c02.run_poison(history); checks.c02.oracle("".join(map(chr, s)), multiline)'})
+    ck.hist('search', f'histories: {len(POISONS)} kinds of earlier event x strings up to length 2 x 2 modes', 2 * len(POISONS) * 211)
 
 
 CAP = 3
@@ -208,6 +306,8 @@ def search(ck: Ck, escalate: bool) -> None:
             r = oracle(s, ml) or kv_oracle(s, ml)
             if r is not None:
                 report(ck, s, ml, r)
+    # (h) histories: state carried from one tokenizer to the next
+    history_search(ck)
     # (a) exhaustive over the escape alphabet
     for ml in (False, True):
         for s in U.strings_upto(ESC_ALPHA, n):
@@ -497,13 +597,18 @@ def _locate(ck: Ck, sh, alpha) -> str:
 
 # ------------------------------------------------------------------------------------------------ main
 def run(ck: Ck) -> None:
+    U.guarded('C02', _run, ck)
+
+
+def _run(ck: Ck) -> None:
     _REPORTED.clear()
     ck.rule = ('exhaustive: every string over the 14-character escape alphabet (backslash, quote, apostrophe, CR, LF, TAB, VT, BS, '
                'FF, BEL, ?, /, n, x) up to length 4 (5 thorough) in both modes, non-trivial = length >= 2; every code point '
                '0..0x10FFFF, non-trivial = escape_text changes it; random strings (escape alphabet / ASCII / surrogates / BMP / '
                'astral) of length 1..200 embedded in ten token contexts, cut into chunks at a random position, under other '
-               'option vectors, through Keyvalues.parse, non-trivial = contains a character of the escape alphabet; distinct by '
-               'full input')
+               'option vectors, through Keyvalues.parse, non-trivial = contains a character of the escape alphabet; histories: 11 kinds of '
+               'earlier event (failed / complete / abandoned parses) followed by every string up to length 2 in a new tokenizer, '
+               'non-trivial = two different characters; distinct by full input')
     ck.trusted.append('hand-written model Text/Tokenizer.v (handle_string/get_token) and Text/Escape.v (tied by exhaustive small-scope and per-code-point differential runs on every run; handle_string also by the decision table read from the source)')
     ck.trusted.append('translate/c02_hstring.py: abstract execution of the loop body of Tokenizer._handle_string (fail-closed outside its statement language)')
     ck.trusted.append('harness/c02_util.py checksum mirror of Text/TokEnum.v (63-bit; a collision would hide a disagreement)')
@@ -565,6 +670,9 @@ def replay(data: dict) -> int:
     ctx = r.get('context') or {}
     esc = escape_text(s, ml)
     print(f's = {s!r}\nescape_text(s, multiline={ml}) = {esc!r}')
+    if r.get('history'):
+        print(f'history: first {r["history"]} (text {dict(POISONS).get(r["history"])!r}), then a new tokenizer')
+        run_poison(r['history'])
     if ctx.get('kv'):
         res = kv_oracle(s, ml)
     else:
@@ -573,6 +681,8 @@ def replay(data: dict) -> int:
             print('tokens:', list(Tokenizer(kw.get('pre', '') + '"' + esc + '"' + kw.get('post', ''))))
         except Exception as e:  # noqa: BLE001
             print('tokenizer raised', repr(e))
+        if r.get('history'):
+            run_poison(r['history'])
         res = oracle(s, ml, **kw)
     mv = U.model_eval([f'gen_escape {"true" if ml else "false"} {coq_str(s)}',
                        f'tok_case {BITS_ESC} (DQ :: gen_escape {"true" if ml else "false"} {coq_str(s)} ++ [DQ])'])
